@@ -1,9 +1,12 @@
 """C04 teardown order and finalizer: theorems in props/C04.v; real controller on deleting / archived ObjectSets."""
-import setcheck, setgen, vlib
+import setcheck, setgen, vlib, phasecheck as pc
 
 
 def check(run, tier, seed, replay=None):
     setcheck.set_check(run, "C04", tier, seed, replay, 1200, 20000, "judge04",
                        "C04 delete issued before later phases are gone, or finalizer removed / Archived=True reported while objects are still controlled",
                        "seeded random worlds biased to deleting and archived ObjectSets: members with finalizers that delay deletion, "
-                       "already deleting, taken over by others, gone; orphan finalizer; finalizer already removed")
+                       "already deleting, taken over by others, gone; orphan finalizer; finalizer already removed; plus the exhaustive "
+                       "teardown table x third-party op between read and delete through the real TeardownPhase ('done' only if gone)",
+                       phase_judge="judge04p",
+                       phase_scs=pc.teardown_table(tier) + pc.random_teardowns(seed + 4, 300 if tier == "quick" else 5000))
